@@ -64,6 +64,9 @@ def judge_text(acc, tag, mode, version, text, case, seen, anytype=False):
         acc.violation("discipline", case, "; ".join(repr(f) for f in findings[:3])[:900], teal=text[-2500:])
     else:
         acc.counters["abstract_ok"] += 1
+        if len(prog.instrs) > 25 and st.get("forced_branches", 0) >= 2:
+            acc.sample({"source": tag, "mode": mode, "version": version, "instructions": len(prog.instrs), "routines": st.get("routines"),
+                        "forced_branches": st.get("forced_branches"), "shadow_states": st.get("abstract_pcs"), "head": text.split("\n")[1:7]}, cap=3)
     return prog
 
 
